@@ -84,7 +84,7 @@ Proof.
 Qed.
 
 Lemma clear_other_case_free k kids tc : sguard k = [] -> clear_other_case k kids tc = tc.
-Proof. intros H. unfold clear_other_case, innermost. rewrite H. reflexivity. Qed.
+Proof. intros H. unfold clear_other_case. rewrite H. reflexivity. Qed.
 
 (** merge preserves shapes *)
 Lemma merge_kids_shaped mrec created ks :
